@@ -170,6 +170,11 @@ class Case:
             return "operands-unchanged:%s:%s" % (self.s, ":".join(rep_class(x, fixbits) + ("-" if x < 0 else "") for x in self.a))
         fxh = "%x" % (1 << fixbits)
         cls = [rep_class(x, fixbits) for x in self.a]
+        if self.op in ("=", "<", ">", "<=", ">=") and len(self.a) == 2 and "ratio" in cls:
+            p1, p2 = self.a[0].numerator * self.a[1].denominator, self.a[1].numerator * self.a[0].denominator
+            lim = 1 << fixbits
+            if -lim <= p1 < lim and -lim <= p2 < lim and abs(p1 - p2) >= lim:
+                return "compare:ratio:fixnum-cross-products-differ-by>=2^%d" % fixbits
         if any(x.denominator == (1 << fixbits) for x in self.a):
             return "ratio:denominator=2^%d" % fixbits
         if out and any(isinstance(r, dict) and r.get("x", "").split("/")[-1].lstrip("-") == fxh and "/" in r.get("x", "")
@@ -179,11 +184,6 @@ class Case:
             return "ratio:numerator=minfix"
         if out and any(isinstance(r, dict) and "/" in r.get("x", "") and r["x"].split("/")[0] == "-" + fxh for r in out.get("r", [])):
             return "ratio:numerator=minfix"
-        if self.op in ("=", "<", ">", "<=", ">=", "-") and len(self.a) == 2 and "ratio" in cls:
-            p1, p2 = self.a[0].numerator * self.a[1].denominator, self.a[1].numerator * self.a[0].denominator
-            lim = 1 << fixbits
-            if -lim <= p1 < lim and -lim <= p2 < lim and abs(p1 - p2) >= lim:
-                return "%s:ratio:fixnum-cross-products-differ-by>=2^%d" % ("compare" if self.op != "-" else "-", fixbits)
         if self.op in ("/", "inv", "floor/", "floor-quotient", "floor-remainder"):
             x = self.a[0] if self.op != "inv" else Fraction(1)
             y = self.a[-1]
@@ -208,7 +208,7 @@ def number_cases(cases):
 
 # --------------------------------------------------------------------------- running the implementation
 def build_numprobe(build, sc):
-    mod = sc.sub("nummod")
+    mod = sc.sub("nummod_" + re.sub(r"[^A-Za-z0-9]+", "_", os.path.basename(build.path.rstrip("/"))))   # one per build
     d = os.path.join(mod, "verif")
     os.makedirs(d, exist_ok=True)
     src = os.path.join(vlib.VERIF, "harness", "num", "verif")
@@ -559,3 +559,103 @@ def replay(path, prop):
             print("VIOLATION property=%s replay=%s" % (prop, path))
             return 1
         raise Broken("replay: TLC failed: %s" % (r.error or r.out[-800:]))
+
+
+# --------------------------------------------------------------------------- entry point for other checks (C09 variants)
+def variant_cases(rng, fixbits, scale=1.0):
+    """A few thousand exact-integer calls around the 64 / 65 / 128-bit product and quotient boundaries, i.e. the places
+    where bignum.c goes through its double-word helper type (sexp_luint_t / sexp_lsint_t: fixnum*fixnum overflow,
+    bignum*word, bignum/word, estimate-and-correct division, reading and printing bignums)."""
+    cases = []
+    fx = 1 << fixbits
+
+    def add(op, a=(), k=(), s="", tag="variant"):
+        cases.append(Case(op, a, k, s, tag))
+    edge = []
+    for kk in (15, 16, 30, 31, 32, 33, 47, 48, fixbits - 1, fixbits, 63, 64, 65, 95, 96, 126, 127, 128, 129, 191, 192):
+        for d in (-1, 0, 1):
+            edge += [(1 << kk) + d, -((1 << kk) + d)]
+    edge += [0, 1, -1, 3, -3, 10, (1 << 64) - (1 << 32), ((1 << 64) - 1) << 64, ((1 << 128) - 1) // 3]
+    fixs = [x for x in edge if -fx <= x < fx]
+    # fixnum x fixnum: products needing exactly 62..66 and 120..125 signed bits
+    for bits in list(range(fixbits - 2, fixbits + 5)) + list(range(2 * fixbits - 5, 2 * fixbits + 1)):
+        for _ in range(int(12 * scale) + 2):
+            ba = rng.randint(max(1, bits - fixbits), min(fixbits, bits - 1))
+            a = rng.getrandbits(ba) | (1 << (ba - 1))
+            b = (((1 << bits) - rng.randint(0, 3)) // a) or 1
+            if b >= fx:
+                b = fx - 1
+            for sa, sb in ((1, 1), (-1, 1), (1, -1), (-1, -1)):
+                add("*", (sa * a, sb * b))
+    for a in fixs:
+        for b in fixs:
+            add("*", (a, b))
+    # everything over the edge values
+    ops = ["+", "-", "*", "quotient", "remainder", "modulo", "floor/", "truncate/", "gcd", "/", "<", "="]
+    for a in edge:
+        for b in rng.sample(edge, min(len(edge), int(14 * scale) + 4)):
+            for op in rng.sample(ops, 3):
+                if b == 0 and op in ("quotient", "remainder", "modulo", "floor/", "truncate/", "/"):
+                    continue
+                add(op, (a, b))
+    # bignum by one word and by two words: quotients with all-ones / zero words, remainders 0, 1, b-1
+    for _ in range(int(600 * scale)):
+        b = rng.choice([rng.getrandbits(64) | (1 << 63), rng.getrandbits(rng.randint(1, 64)) | 1, (1 << 64) - 1, (1 << 63), (1 << 32) + 1,
+                        rng.getrandbits(128) | (1 << 127), ((1 << 64) - 1) << 64, (1 << 127) - 1])
+        q = rng.choice([rng.getrandbits(rng.randint(1, 200)), (1 << rng.randint(1, 200)) - 1, ((1 << 64) - 1) << rng.randint(0, 130), 1 << rng.randint(60, 200)])
+        r = rng.choice([0, 1, b - 1, rng.randrange(b)])
+        n = (q * b + r) * rng.choice([1, -1])
+        d = b * rng.choice([1, -1])
+        add(rng.choice(["quotient", "remainder", "modulo", "floor/", "truncate/", "gcd"]), (n, d))
+        add("*", (q * rng.choice([1, -1]), d))
+    # reading and printing go through word-sized multiply / divide
+    for _ in range(int(120 * scale) + 10):
+        v = rng.choice(edge) if rng.random() < 0.5 else rng.getrandbits(rng.randint(60, 300)) * rng.choice([1, -1])
+        radix = rng.choice([2, 3, 8, 10, 16])
+        add("number->string", (v,), (radix,))
+        digs = "0123456789abcdef"
+        m, t = abs(v), ""
+        while m:
+            t = digs[m % radix] + t
+            m //= radix
+        add("string->number", (), (radix,), ("-" if v < 0 else "") + (t or "0"))
+    for _ in range(int(100 * scale) + 10):
+        add("exact-integer-sqrt", (rng.choice([abs(x) for x in edge]) ** 2 + rng.choice([0, 1, -1]) if rng.random() < 0.6 else rng.getrandbits(rng.randint(60, 260)),))
+        b = rng.choice([2, 3, 7, 10, -2, -3, (1 << 31) + 1, (1 << 32) - 1])
+        add("expt", (b,), (rng.randint(0, 200 // max(2, abs(b).bit_length())),))
+    cases = [c for c in cases if not (c.op == "exact-integer-sqrt" and c.a[0] < 0)]
+    return number_cases(cases)
+
+
+def run_variant(chk, sc, build, label, scale=1.0, report=False):
+    """Run the C04 driver on another build (e.g. vlib.build_repo(dir, cflags="-DSEXP_USE_CUSTOM_LONG_LONGS=1")) and let TLC
+    (NumTrace.tla) judge every recorded call.  Returns
+        {"cases": n, "accepted": n, "fixbits": k, "rejected": {structural key: {"call", "count", "implementation_output"}}}
+    With report=True every rejected key is also reported through chk.report as '<label>:<key>' (replay file written).
+    Does not touch chk.cov; the caller adds what it wants.  Seeded from chk.seed only, so every build of one run gets the same calls."""
+    import random
+    rng = random.Random("%s:variant" % chk.seed)          # the same calls for every build of one run
+    build_numprobe(build, sc)
+    _, fixbits = run_driver(build, sc, number_cases([Case("+", (1, 1))]), label + "_probe")
+    cases = variant_cases(rng, fixbits, scale)
+    saved = dict(chk.cov.get("seconds", {}))
+    rejected, outs, events, fixbits, cfg = process(
+        chk, sc, build, "NumTrace.tla", lambda fb: write_cfg(sc, "NumTrace_%s.cfg" % label, {"FixBits": fb}), cases, label)
+    chk.cov["seconds"] = saved
+    byid = {c.id: c for c in cases}
+    res = {}
+    if rejected:
+        class _Collect:                      # same confirmation (second TLC run) and keys as C04, without reporting
+            def __init__(self):
+                self.items = []
+
+            def report(self, key, msg, name, content):
+                self.items.append((key, msg, name, content))
+        col = _Collect()
+        confirm_and_report(col, sc, "NumTrace.tla", cfg, byid, events, outs, rejected, label, fixbits)
+        for key, msg, name, content in col.items:
+            res[key] = {"call": content["call"], "count": content["count"], "implementation_output": content["implementation_output"]}
+            if report:
+                content = dict(content, key="%s:%s" % (label, key))
+                chk.report("%s:%s" % (label, key), "[%s] %s" % (label, msg), name, content)
+    return {"cases": len(cases), "accepted": len(cases) - len(rejected), "fixbits": fixbits, "rejected": res}
